@@ -297,7 +297,10 @@ def s1_swap_high(scn, v):
     with the same sqrt terms as the code, so that it is linear once they are
     abstracted."""
     _sw, _ok, a, b = _s1_limits(scn, v)
-    sa, sb = [g_sqrt(x) for x in a], [g_sqrt(x) for x in b]
+    q = v["q"]
+    L, W = scn.per_point(v)
+    sa = [g_sqrt(x) for x in a]
+    sb = [g_sqrt(b[i]) if not _zero(L[i]) else q[i] + W[i] for i in range(len(b))]
     return g_or(*[g_and(*[sa[i] < sb[j] for i in range(len(a))]) for j in range(len(b))])
 
 
